@@ -185,13 +185,32 @@ static std::vector<Op> genScript(vh::Rng &r, long len, int maxDepth)
   return s;
 }
 
-static void traceCase(long k, int T, long len, bool mainRecords, bool processName, bool slowPairs, bool sequential = false)
+static void traceCase(long k, int T, long len, bool mainRecords, bool processName, bool slowPairs, bool sequential = false, long manyNames = 0)
 {
   vh::Rng r(vh::seed(), 30000 + (uint64_t)k);
   std::string base = vh::st().outDir + "/trace_" + std::to_string(k);
   std::vector<std::vector<Op>> scripts;
   for (int t = 0; t < T; ++t)
     scripts.push_back(genScript(r, t == 0 ? len : (long)r.pick(std::vector<long>{0, 1, 5, len / 2 + 1, len}), (int)r.range(0, 6)));
+  if (manyNames > 0) {
+    // thread 0 labels every event with a name of its own (a dynamically generated label per event): far more
+    // distinct names than any fixed set - all of them stay valid until the log is saved
+    size_t base0 = g_names->size();
+    g_names->reserve(base0 + (size_t)manyNames);  // no reallocation once pointers have been handed out
+    for (long i = 0; i < manyNames; ++i)
+      g_names->push_back("label_" + std::to_string(i));
+    std::vector<Op> s0;
+    for (long i = 0; i < manyNames; ++i) {
+      Op o;
+      o.ph    = (i % 3 == 0) ? 'C' : 'i';
+      o.name  = (int)(base0 + (size_t)i);
+      o.cat   = (int)(i % 10);
+      o.value = (uint64_t)i;
+      s0.push_back(o);
+    }
+    scripts[0] = s0;
+    vh::count("trace_scenarios_with_many_distinct_names");
+  }
   std::vector<Op> mainScript;
   if (mainRecords)
     mainScript = genScript(r, 40, 3);
@@ -342,6 +361,7 @@ struct TraceSpec
   long len;
   bool mainRecords, processName, slow;
   bool seq;  // the recording threads run one after the other and have exited when the log is saved
+  long manyNames;  // > 0: thread 0 records that many events, each under a name of its own
 };
 
 int main(int argc, char **argv)
@@ -353,7 +373,7 @@ int main(int argc, char **argv)
       "images: every width x height in 1..17 (thorough 1..33) plus large sizes (every power of two 64..65536 +-1 as width and as height, random widths up to 70000, one image of ~12.6 MB output per writer) x 6 writer variants with random pixels in exact-size "
       "buffers, decoded by an independent reader, also with four writers of one format at work at the same time; traces: scenarios (threads 0..8, events per thread in {0,1,8191,8192,8193,20000,random}, "
       "nesting depth <= 6, with/without process name and main-thread events, threads alive together until the log is saved or run one after "
-      "the other (exited, ids reused) before it is saved; a third of the scenarios record more and save a second time), each in a fresh process, checked offline by "
+      "the other (exited, ids reused) before it is saved; a third of the scenarios record more and save a second time; two scenarios label 70000 / 140000 events of one thread with a name each), each in a fresh process, checked offline by "
       "oracle/trace_check.py; distinct = hash of (format,width,height) / (threads,length,flags); non-trivial = more than one pixel / at least "
       "one event");
   g_names = new std::vector<std::string>();
@@ -466,9 +486,13 @@ int main(int argc, char **argv)
     specs.push_back(q2);
     if (!tsan)
       specs.push_back(q3);
+    TraceSpec m1 = {2, 10, false, true, false, false, tsan ? 3000 : 70000}, m2 = {1, 5, true, false, false, true, tsan ? 3000 : 140000};
+    specs.push_back(m1);
+    if (!tsan)
+      specs.push_back(m2);
   }
   vh::forkedCases(
-      (long)specs.size(), [&](long k) { traceCase(k, specs[k].T, specs[k].len, specs[k].mainRecords, specs[k].processName, specs[k].slow, specs[k].seq); }, 60000, 1,
+      (long)specs.size(), [&](long k) { traceCase(k, specs[k].T, specs[k].len, specs[k].mainRecords, specs[k].processName, specs[k].slow, specs[k].seq, specs[k].manyNames); }, 60000, 1,
       [&](long k) { return std::string("C20-trace #") + std::to_string(k) + " threads=" + std::to_string(specs[k].T) + " len=" + std::to_string(specs[k].len) + (specs[k].seq ? " one-after-the-other" : ""); });
   return vh::finish();
 }
